@@ -60,6 +60,8 @@ type engine struct {
 	entered  chan struct{}
 	gate     chan struct{}
 	onCommit func(c commit)
+	// set by the harness after RequestShutdown: run once inside the next Engine.Commit (on the writer goroutine)
+	inShutdownCommit func()
 }
 
 func newEngine(magic uint32, off int64) *engine {
@@ -104,9 +106,14 @@ func (e *engine) Commit(off int64, meta []byte, safe int64) error {
 	e.mu.Lock()
 	e.commits = append(e.commits, c)
 	f := e.onCommit
+	g := e.inShutdownCommit
+	e.inShutdownCommit = nil
 	e.mu.Unlock()
 	if f != nil {
 		f(c)
+	}
+	if g != nil {
+		g()
 	}
 	return nil
 }
@@ -507,6 +514,112 @@ func (c *caseCtx) session(from int64, meta []byte, nBatches int) bool {
 		h.Obs("iter commit=%s written=%d", commitStr(last), written())
 		c.commits = append(c.commits, news...)
 	}
+	type outLine struct {
+		op bool
+		s  string
+	}
+	// one Append on the real binlog; lines go to `sink` (emitted later) or straight to the protocol.
+	// returns (accepted, abort)
+	appendOne := func(n int, asap, wrong, mayBeRefused bool, sink *[]outLine) (bool, bool) {
+		emit := func(op bool, format string, a ...any) {
+			l := fmt.Sprintf(format, a...)
+			if sink != nil {
+				*sink = append(*sink, outLine{op, l})
+			} else if op {
+				h.Op("%s", l)
+			} else {
+				h.Obs("%s", l)
+			}
+		}
+		inOff := pos
+		if wrong {
+			inOff = pos + int64(4*(r.Intn(3)-1))
+			if inOff == pos {
+				inOff = pos + 4
+			}
+		}
+		spec, data := c.mkPayload(n)
+		bufBefore, _, _, _ := fsbinlog.VerifBuf(bl)
+		var next int64
+		var aerr error
+		panicked := func() (p bool) {
+			defer func() {
+				if rec := recover(); rec != nil {
+					p = true
+					h.Note("Append panicked: %v", rec)
+				}
+			}()
+			if asap {
+				next, aerr = bl.AppendASAP(inOff, data)
+			} else {
+				next, aerr = bl.Append(inOff, data)
+			}
+			return false
+		}()
+		bufAfter, crc, offAfter, _ := fsbinlog.VerifBuf(bl)
+		if panicked {
+			emit(true, "app %d %d %d %d %d %s", b2i(asap), inOff, 0, 0, 0, spec)
+			emit(false, "app res=panic next=%d crc=%d add=0", offAfter, crc)
+			h.Stat("app.panic", 1)
+			h.Viol("append-panic", "Append(%d, %d bytes) panicked in putLevToBuffer (chunk size %d, session resumed at %d in the first chunk)", inOff, len(data), c.chunk, from)
+			c.aborted = true
+			return false, true
+		}
+		var added []byte
+		if len(bufAfter) >= len(bufBefore) && aerr == nil {
+			added = bufAfter[len(bufBefore):]
+		}
+		var ts, h1, h2 uint64
+		extra := added[min(len(added), fsbinlog.AddPadding(len(data))):]
+		if len(extra) >= 20 && binary.LittleEndian.Uint32(extra) == uint32(consts["magicLevCrc32"]) {
+			ts = uint64(binary.LittleEndian.Uint32(extra[4:]))
+			extra = extra[20:]
+			h.Stat("app.crcLev", 1)
+			h.NonTrivial("crc-record")
+		}
+		if len(extra) >= 72 && binary.LittleEndian.Uint32(extra) == uint32(consts["magicLevRotateTo"]) {
+			ts = uint64(binary.LittleEndian.Uint32(extra[4:]))
+			h1 = binary.LittleEndian.Uint64(extra[20:])
+			h2 = binary.LittleEndian.Uint64(extra[28:])
+			h.Stat("app.rotate", 1)
+			h.NonTrivial("rotation")
+		}
+		emit(true, "app %d %d %d %d %d %s", b2i(asap), inOff, ts, h1, h2, spec)
+		resS := "ok"
+		if aerr != nil {
+			switch {
+			case strings.Contains(aerr.Error(), "already stopped"):
+				resS = "stopped"
+			case strings.Contains(aerr.Error(), "wrong offset"):
+				resS = "wrongOffset"
+			default:
+				resS = "other"
+			}
+		}
+		emit(false, "app res=%s next=%d crc=%d add=%d", resS, next, crc, crc32.ChecksumIEEE(added))
+		h.Stat("app."+resS, 1)
+		if aerr == nil {
+			c.appended = append(c.appended, appended{pos, data})
+			if next != pos+int64(len(added)) {
+				h.Viol("append-offset", "Append returned %d, buffer grew by %d from %d", next, len(added), pos)
+			}
+			pos = next
+			return true, false
+		}
+		if !wrong && !(mayBeRefused && resS == "stopped") {
+			h.Viol("append-failed", "Append(%d) failed: %v", inOff, aerr)
+		}
+		return false, false
+	}
+	abortSession := func() bool {
+		bl.RequestShutdown()
+		eng.gate <- struct{}{}
+		select {
+		case <-done:
+		case <-time.After(20 * time.Second):
+		}
+		return false
+	}
 	for b := 0; b < nBatches; b++ {
 		k := r.Pick(5, 3, 2, 1, 1) + 1
 		if r.Chance(1, 12) {
@@ -514,97 +627,56 @@ func (c *caseCtx) session(from int64, meta []byte, nBatches int) bool {
 		}
 		hasAsap := false
 		for j := 0; j < k; j++ {
-			n := c.payloadLen()
 			asap := r.Chance(3, 10)
-			inOff := pos
-			wrong := r.Chance(1, 60)
-			if wrong {
-				inOff = pos + int64(4*(r.Intn(3)-1))
-				if inOff == pos {
-					inOff = pos + 4
-				}
+			acc, abort := appendOne(c.payloadLen(), asap, r.Chance(1, 60), false, nil)
+			if abort {
+				return abortSession()
 			}
-			spec, data := c.mkPayload(n)
-			bufBefore, _, _, _ := fsbinlog.VerifBuf(bl)
-			var next int64
-			var aerr error
-			panicked := func() (p bool) {
-				defer func() {
-					if rec := recover(); rec != nil {
-						p = true
-						h.Note("Append panicked: %v", rec)
-					}
-				}()
-				if asap {
-					next, aerr = bl.AppendASAP(inOff, data)
-				} else {
-					next, aerr = bl.Append(inOff, data)
-				}
-				return false
-			}()
-			bufAfter, crc, offAfter, _ := fsbinlog.VerifBuf(bl)
-			if panicked {
-				h.Op("app %d %d %d %d %d %s", b2i(asap), inOff, 0, 0, 0, spec)
-				h.Obs("app res=panic next=%d crc=%d add=0", offAfter, crc)
-				h.Stat("app.panic", 1)
-				h.Viol("append-panic", "Append(%d, %d bytes) panicked in putLevToBuffer (chunk size %d, session resumed at %d in the first chunk)", inOff, len(data), c.chunk, from)
-				c.aborted = true
-				bl.RequestShutdown()
-				eng.gate <- struct{}{}
-				select {
-				case <-done:
-				case <-time.After(20 * time.Second):
-				}
-				return false
-			}
-			added := bufAfter[len(bufBefore):]
-			var ts, h1, h2 uint64
-			extra := added[min(len(added), fsbinlog.AddPadding(len(data))):]
-			if len(extra) >= 20 && binary.LittleEndian.Uint32(extra) == uint32(consts["magicLevCrc32"]) {
-				ts = uint64(binary.LittleEndian.Uint32(extra[4:]))
-				extra = extra[20:]
-				h.Stat("app.crcLev", 1)
-				h.NonTrivial("crc-record")
-			}
-			if len(extra) >= 72 && binary.LittleEndian.Uint32(extra) == uint32(consts["magicLevRotateTo"]) {
-				ts = uint64(binary.LittleEndian.Uint32(extra[4:]))
-				h1 = binary.LittleEndian.Uint64(extra[20:])
-				h2 = binary.LittleEndian.Uint64(extra[28:])
-				h.Stat("app.rotate", 1)
-				h.NonTrivial("rotation")
-			}
-			h.Op("app %d %d %d %d %d %s", b2i(asap), inOff, ts, h1, h2, spec)
-			resS := "ok"
-			if aerr != nil {
-				switch {
-				case strings.Contains(aerr.Error(), "already stopped"):
-					resS = "stopped"
-				case strings.Contains(aerr.Error(), "wrong offset"):
-					resS = "wrongOffset"
-				default:
-					resS = "other"
-				}
-			}
-			h.Obs("app res=%s next=%d crc=%d add=%d", resS, next, crc, crc32.ChecksumIEEE(added))
-			h.Stat("app."+resS, 1)
-			if aerr == nil {
-				if asap {
-					hasAsap = true
-				}
-				c.appended = append(c.appended, appended{pos, data})
-				if next != pos+int64(len(added)) {
-					h.Viol("append-offset", "Append returned %d, buffer grew by %d from %d", next, len(added), pos)
-				}
-				pos = next
-			} else if !wrong {
-				h.Viol("append-failed", "Append(%d) failed: %v", inOff, aerr)
+			if acc && asap {
+				hasAsap = true
 			}
 		}
 		runIter(hasAsap)
 	}
+	// shutdown window (every other session): appends that are in the buffer when shutdown is requested, an append made after
+	// RequestShutdown while the writer has not looked yet, and an append made from inside the writer's Engine.Commit call
+	// that follows the shutdown request (another goroutine racing with the final write/fsync/commit).  Every append that is
+	// acknowledged must end up in the files; one that cannot be written any more must be refused.
+	var pending []outLine
+	pendingAccepted := false
+	if r.Chance(1, 2) {
+		h.Stat("stop.window", 1)
+		h.NonTrivial("shutdown-window")
+		for j := r.Range(1, 2); j > 0; j-- {
+			if _, abort := appendOne(c.payloadLen(), false, false, false, nil); abort {
+				return abortSession()
+			}
+		}
+		eng.mu.Lock()
+		eng.inShutdownCommit = func() {
+			acc, _ := appendOne(r.Range(0, 24), false, false, true, &pending)
+			pendingAccepted = acc
+			if acc {
+				h.Stat("stop.inCommitAccepted", 1)
+			} else {
+				h.Stat("stop.inCommitRefused", 1)
+			}
+		}
+		eng.mu.Unlock()
+	}
 	// shutdown: the writer is parked with an empty buffer
 	n0 := eng.nCommits()
 	bl.RequestShutdown()
+	eng.mu.Lock()
+	window := eng.inShutdownCommit != nil
+	eng.mu.Unlock()
+	if window && r.Chance(1, 2) {
+		// the stop channel is closed but the writer has not run yet: this append must still be accepted and written
+		if _, abort := appendOne(c.payloadLen(), false, false, false, nil); abort {
+			return abortSession()
+		}
+		h.Stat("stop.afterRequest", 1)
+	}
 	eng.gate <- struct{}{}
 	var fin wlRes
 	select {
@@ -620,8 +692,23 @@ func (c *caseCtx) session(from int64, meta []byte, nBatches int) bool {
 	if len(news) > 0 {
 		last = &news[len(news)-1]
 	}
+	flush := func() {
+		for _, l := range pending {
+			if l.op {
+				h.Op("%s", l.s)
+			} else {
+				h.Obs("%s", l.s)
+			}
+		}
+	}
+	if pendingAccepted {
+		flush() // accepted before the writer stopped accepting: for the model it is an append in front of the stop iteration
+	}
 	h.Op("stop")
 	h.Obs("stop err=%s commit=%s pos=%d crc=%d", classify(fin.err), commitStr(last), fin.ri.Offset, fin.ri.Crc)
+	if !pendingAccepted {
+		flush() // refused: an append after the stop iteration
+	}
 	c.commits = append(c.commits, news...)
 	if fin.ri.Offset != pos {
 		h.Viol("stop-position", "WriteLoop returned offset %d, last Append returned %d", fin.ri.Offset, pos)
@@ -647,6 +734,17 @@ func (c *caseCtx) session(from int64, meta []byte, nBatches int) bool {
 	h.Obs("files %d", len(files))
 	for _, f := range files {
 		h.Obs("file %d %d %d", f.pos, len(f.data), crc32.ChecksumIEEE(f.data))
+	}
+	// every acknowledged append is in the files at the offset Append returned
+	{
+		st := stream(files)
+		for _, a := range c.appended {
+			if a.off < 0 || a.off+int64(len(a.data)) > int64(len(st)) || string(st[a.off:a.off+int64(len(a.data))]) != string(a.data) {
+				h.Viol("acked-append-lost", "Append at offset %d (%d bytes) returned nil error but the event is not in the files after shutdown (stream has %d bytes)", a.off, len(a.data), len(st))
+				break
+			}
+		}
+		h.Stat("oracle.acked", 1)
 	}
 	// every commit of this history: offset <= durable bytes was checked in checkCommit; here: last commit covers everything
 	if len(c.commits) > 0 && c.commits[len(c.commits)-1].off != pos {
@@ -916,7 +1014,13 @@ func (c *caseCtx) readChecks() {
 		cm := cms[r.Intn(len(cms))]
 		c.noOracle = true
 		h.Stat("read.malformed", 1)
-		switch r.Intn(4) {
+		which := r.Intn(4)
+		if c.big && (which == 0 || which == 2) {
+			// engine offset ahead of the reader + an event larger than the 64 KiB read buffer: the real reader re-parses in the
+			// middle of the event after a refill; outside the model's buffer idealisation (see assumptions)
+			which = 1
+		}
+		switch which {
 		case 0:
 			c.readCheck(files, cm.off, cm.meta, cm.off+4, dmg{kind: '-'}, crcs)
 		case 1:
